@@ -294,7 +294,7 @@ func allKinds() []kind {
 	ks = append(ks, kindDur(), kindClaim(), kindValFee(), kindAddSec(), kindConv())
 	ks = append(ks, kindEntParams(), kindRegParams(), kindStrParams())
 	ks = append(ks, kindCoins("coins.lt"), kindCoins("coins.gt"))
-	ks = append(ks, kindOwnerGate())
+	ks = append(ks, kindOwnerGate(), kindOwnerMsg())
 	return ks
 }
 
@@ -1024,4 +1024,20 @@ func kindOwnerGate() kind {
 		return t
 	}
 	return kind{"ownergate", all, func(r *rand.Rand) string { t := all(); return t[r.Intn(len(t))] }}
+}
+
+
+// kindOwnerMsg: the same table through the message servers (record and storage purchase)
+func kindOwnerMsg() kind {
+	all := func() []string {
+		var t []string
+		for _, l := range kindOwnerGate().table() {
+			f := strings.Fields(l)
+			for _, op := range []string{"rec", "buy"} {
+				t = append(t, fmt.Sprintf("ownermsg %s %s %s %s", f[1], op, f[2], f[3]))
+			}
+		}
+		return t
+	}
+	return kind{"ownermsg", all, func(r *rand.Rand) string { t := all(); return t[r.Intn(len(t))] }}
 }
